@@ -106,6 +106,9 @@ func (ex *Exec) modelOf(extra ...*Term) (SatResult, map[string]string) {
 	for i, in := range ex.inputs {
 		m[in.Name] = decodeModelValue(out[i], in.T.Sort)
 	}
+	if ex.thr != nil && len(ex.thr.sched) > 0 {
+		m["__schedule"] = ex.schedString()
+	}
 	return r, m
 }
 
@@ -195,6 +198,9 @@ func (ex *Exec) finalModel() (map[string]string, []ObsVal) {
 	m := map[string]string{}
 	for i, in := range ex.inputs {
 		m[in.Name] = decodeModelValue(out[i], in.T.Sort)
+	}
+	if ex.thr != nil && len(ex.thr.sched) > 0 {
+		m["__schedule"] = ex.schedString()
 	}
 	var obs []ObsVal
 	k := nin
